@@ -893,6 +893,29 @@ MUTANTS = [
             back.stable_hash(state);
         }""",
          expect="C13.c/layout-observers-only-iterated"),
+    dict(id="C01.c-backward-edge-inserted-with-roles-swapped", prop="C01", file=CG + "database.rs",
+         old="                            .insert(*query_id, *self.query_id(), &mut tx)",
+         new="                            .insert(*self.query_id(), *query_id, &mut tx)",
+         expect="C01.c/edge-roles/backward-edge-key-is-the-callee"),
+    dict(id="C01.c-dirty-edge-removed-with-roles-swapped", prop="C01", file=CG + "database.rs",
+         old="                                    Edge { from: *self.query_id(), to: *edge };",
+         new="                                    Edge { from: *edge, to: *self.query_id() };",
+         expect="C01.c/edge-roles/backward-edge-key-is-the-callee"),
+    dict(id="C01.i-unordered-arm-overwrites-the-repair-flag", prop="C01", file=CG + "repair.rs",
+         old="""                                cleaned_edges.append(&mut edges);
+
+                                if repair_tfc_needed {
+                                    repair_transitive_firewall_callees = true;
+                                }""",
+         new="""                                cleaned_edges.append(&mut edges);
+
+                                repair_transitive_firewall_callees =
+                                    repair_tfc_needed;""",
+         expect="C01.i/repair-decision/accumulators-are-monotone"),
+    dict(id="C01.i-clean-list-replaced", prop="C01", file=CG + "repair.rs",
+         old="                                cleaned_edges.append(&mut edges);", new="                                cleaned_edges = edges;",
+         edits_extra=[("                                cleaned_edges: mut edges,", "                                cleaned_edges: edges,")],
+         expect="C01.i/repair-decision/accumulators-are-monotone"),
     # ------------------------------------------------------------------ C09.f (D5)
     dict(id="C09.f-D5-fold-heap-in-arbitrary-order", prop="C09", file=ST + "key_of_set_map/cache.rs",
          old="""        let mut ordered = log.iter().collect::<Vec<_>>();
